@@ -99,10 +99,58 @@ def run(rep):
         return v
     crop.drive(rep, runs, claims=lambda tag: tag in CLAIMS, variants=variants)
     crop.parallel_grow_cases(rep, 2 if q else 6)
+    main_script_scenario(rep)
+
+
+def main_script_scenario(rep):
+    """Sow from a user's script (the swept function is a plain top-level function of __main__), grow every batch in a fresh
+    process that only knows the crop's name and directory, reap in a third one: Crop.tla's Grow un-pickles the function
+    from the crop (dfn), it never needs the session that sowed.  Compared with the direct evaluation."""
+    import json
+    import os
+    import shutil
+    import subprocess
+    import sys
+    import tempfile
+    from .. import common
+    tmp = tempfile.mkdtemp(prefix="c04s-", dir=common.scratch("crops"))
+    try:
+        head = "import sys; sys.path.insert(0, %r)\nimport xyzpy\nassert xyzpy.__file__.startswith(%r), xyzpy.__file__\n" % (common.REPO, common.REPO)
+        sow = head + ("def energy(a, b):\n    return 100.0 * a + b\n\n"
+                      "c = xyzpy.Crop(fn=energy, name='main', parent_dir=%r, batchsize=2)\n"
+                      "c.sow_combos({'a': [1, 2, 3], 'b': [1, 2]}, verbosity=0)\n" % tmp)
+        grow = head + "c = xyzpy.Crop(name='main', parent_dir=%r)\nc.grow_missing(verbosity=0)\n" % tmp
+        reap = head + ("import json\nc = xyzpy.Crop(name='main', parent_dir=%r)\n"
+                       "print('RESULT' + json.dumps([[float(v) for v in row] for row in c.reap()]))\n" % tmp)
+        case = dict(kind="main_script")
+        rep.add_case(["main_script"], sample=None)
+        env = dict(os.environ, TQDM_DISABLE="1")
+        out = None
+        for nm, code in (("sow", sow), ("grow", grow), ("reap", reap)):
+            f = os.path.join(tmp, nm + "_script.py")
+            with open(f, "w") as fh:
+                fh.write(code)
+            p = subprocess.run([sys.executable, "-W", "ignore", f], capture_output=True, text=True, env=env, cwd=tmp)
+            if p.returncode != 0:
+                rep.add_violation(case, "a crop sown by a script whose function is a top-level function of __main__: the %s step in a fresh "
+                                  "process failed: %s" % (nm, p.stderr.strip().splitlines()[-1][:300] if p.stderr.strip() else p.returncode),
+                                  key=dict(tag="reap_raise_complete", kind="main_script"))
+                return
+            out = p.stdout
+        got = json.loads([l for l in out.splitlines() if l.startswith("RESULT")][0][6:])
+        want = [[100.0 * a + b for b in (1, 2)] for a in (1, 2, 3)]
+        if got != want:
+            rep.add_violation(case, "crop sown / grown / reaped by three processes gives %r, the direct run %r" % (got, want),
+                              key=dict(tag="reap_value_complete", kind="main_script"))
+    finally:
+        shutil.rmtree(tmp, ignore_errors=True)
 
 
 def replay(rep, saved):
+    if saved.get("kind") == "main_script":
+        main_script_scenario(rep)
+        return
     if saved.get("kind") == "parallel_grow":
         crop.parallel_grow_cases(rep, 2)
         return
-    crop.replay_saved(rep, saved)
+    crop.replay_saved(rep, saved, claims=lambda tag: tag in CLAIMS)
